@@ -57,7 +57,8 @@ type socket struct {
 	pingTimeoutTimer  atomic.Pointer[utils.Timer]
 	pingIntervalTimer atomic.Pointer[utils.Timer]
 
-	flushMu sync.Mutex
+	flushMu      sync.Mutex
+	flushPending atomic.Bool
 }
 
 func (s *socket) Protocol() int {
@@ -379,14 +380,17 @@ func (s *socket) MaybeUpgrade(transport transports.Transport) {
 		// serialise with flush(): both test Writable() and then hand a batch to the
 		// transport; interleaved, the second batch finds no pending poll request
 		s.flushMu.Lock()
-		defer s.flushMu.Unlock()
-
 		if transports.POLLING == s.Transport().Name() && s.Transport().Writable() {
 			if verifhook.Enabled {
 				verifhook.Point("socket.upgrade.check.window", s)
 			}
 			socket_log.Debug("writing a noop packet to polling for fast upgrade")
 			s.Transport().Send([]*packet.Packet{{Type: packet.NOOP}})
+		}
+		s.flushMu.Unlock()
+		// a flush that found the lock taken left its request behind
+		if s.flushPending.Load() {
+			s.flush()
 		}
 	}
 
@@ -549,9 +553,21 @@ func (s *socket) sendPacket(
 
 // Attempts to flush the packets buffer.
 func (s *socket) flush() {
-	s.flushMu.Lock()
-	defer s.flushMu.Unlock()
+	// A listener of the flush/drain events (or a send callback) may call Send, which
+	// ends up here again on the same goroutine: never wait for the lock. Whoever holds
+	// it re-runs the flush when a request arrived meanwhile.
+	s.flushPending.Store(true)
+	for s.flushPending.Load() {
+		if !s.flushMu.TryLock() {
+			return
+		}
+		s.flushPending.Store(false)
+		s.doFlush()
+		s.flushMu.Unlock()
+	}
+}
 
+func (s *socket) doFlush() {
 	if s.ReadyState() != "closed" && s.Transport().Writable() {
 		if wbuf := s.writeBuffer.AllAndClear(); len(wbuf) > 0 {
 			socket_log.Debug("flushing buffer to transport")
